@@ -371,7 +371,7 @@ def main(argv):
     report = C.Report("C04")
     t0 = time.time()
     jobs = [(s, m) for s in O.systems() for m in (False, True)]
-    res = C.pool_map(shard, jobs)
+    res = O.concolic_map(shard, jobs)
     n = sum(r[0] for r in res)
     bad = [b for r in res for b in r[1]]
     ares = C.pool_map(array_dtype_part, jobs) + C.pool_map(boundary_roundtrips, jobs) + C.pool_map(value_twin_probe, jobs)
